@@ -4,7 +4,7 @@ Model checking of the client lifecycle on the real SwitcherType1Api / SwitcherTy
 every sequence of actions up to depth D (quick 4, thorough 6) over
     connect (accepted) | connect (refused) | operation that succeeds | operation that raises on a
     garbage reply | operation that raises on a bad argument | `async with` whose body succeeds |
-    `async with` whose body raises | `async with` whose connect is refused | the device drops the
+    `async with` whose body raises (an Exception, an OSError subclass, a BaseException) | `async with` whose connect is refused | the device drops the
     connection | disconnect
 is executed on a fresh controlled loop (socketpair connections), and after every action the
 observable state is compared with the lifecycle model:
@@ -42,12 +42,19 @@ ASSUMPTIONS = [
     "socketpair stands in for TCP except in the real-TCP subset",
 ]
 
-ACTIONS = ["connect", "refused", "op_ok", "op_garbage", "op_badarg", "ctx_ok", "ctx_raise", "ctx_refused", "drop", "disconnect"]
+ACTIONS = ["connect", "refused", "op_ok", "op_garbage", "op_badarg", "ctx_ok", "ctx_raise", "ctx_raise_os", "ctx_raise_base", "ctx_refused", "drop", "disconnect"]
 PORT = {1: 9957, 2: 10000}
 
 
 class Boom(Exception):
     pass
+
+
+class Abort(BaseException):
+    """A body failure that is not an Exception (like cancellation or KeyboardInterrupt)."""
+
+
+BODY_EXC = {"ctx_raise": Boom, "ctx_raise_os": TimeoutError, "ctx_raise_base": Abort}
 
 
 def depth(tier):
@@ -68,7 +75,7 @@ def model_next(m, a):
     m = dict(m)
     if a == "connect":
         m.update(connected=True, live=True, dropped=False)
-    elif a in ("ctx_ok", "ctx_raise"):
+    elif a in ("ctx_ok", "ctx_raise", "ctx_raise_os", "ctx_raise_base"):
         m.update(connected=False, live=True, dropped=False)
     elif a == "drop":
         m.update(dropped=True)
@@ -225,7 +232,7 @@ class World:
             elif out[0] == "hang":
                 res.violation("operation-hangs-after-drop", case, f"{tag}: operation on a dropped connection hangs")
                 ok = False
-        elif a in ("ctx_ok", "ctx_raise", "ctx_refused"):
+        elif a in ("ctx_ok", "ctx_raise", "ctx_raise_os", "ctx_raise_base", "ctx_refused"):
             self.refuse_next = a == "ctx_refused"
             seen = {}
 
@@ -233,8 +240,8 @@ class World:
                 async with api as entered:
                     seen["entered"] = entered
                     seen["connected_inside"] = api.connected
-                    if a == "ctx_raise":
-                        raise Boom("body failed")
+                    if a in BODY_EXC:
+                        raise BODY_EXC[a]("body failed")
                     op, args, script = op_spec(self.kind, "op_ok")
                     self.w.device.begin(expected_shape(op, None), None, None)
                     return await call(api, op, args)
@@ -249,8 +256,8 @@ class World:
                 if seen.get("entered") is not api or seen.get("connected_inside") is not True:
                     res.violation("context-entry", case, f"{tag}: inside the context connected={seen.get('connected_inside')}, yielded {seen.get('entered')!r}")
                     ok = False
-                if a == "ctx_raise" and (out[0] != "exc" or type(out[1]) is not Boom):
-                    res.violation("body-exception-swallowed", case, f"{tag}: body raised Boom, caller saw {out[0]} {out[1]!r}", "Boom", repr(out[1]))
+                if a in BODY_EXC and (out[0] != "exc" or type(out[1]) is not BODY_EXC[a]):
+                    res.violation("body-exception-swallowed", case, f"{tag}: body raised {BODY_EXC[a].__name__}, caller saw {out[0]} {out[1]!r}", BODY_EXC[a].__name__, repr(out[1]))
                     ok = False
                 if a == "ctx_ok" and out[0] != "ok":
                     res.violation("context-body-fails", case, f"{tag}: body {out[0]} {out[1]!r}")
@@ -281,8 +288,8 @@ class World:
             if (host, port, fam) != (self.w.ip, PORT[self.kind], socket.AF_INET):
                 res.violation("connect-address", case, f"{tag}: asked for {(host, port, fam)}, configured {(self.w.ip, PORT[self.kind], 'AF_INET')}")
                 ok = False
-        if a in ("ctx_ok", "ctx_raise"):
-            self._after_disconnect(res, case, tag, newest=True)
+        if a in ("ctx_ok", "ctx_raise", "ctx_raise_os", "ctx_raise_base"):
+            ok = self._after_disconnect(res, case, tag, newest=True) and ok
         try:
             flag = api.connected
         except Exception as exc:  # noqa: BLE001
@@ -367,7 +374,7 @@ def run_job(job):
             continue
         res.traces += 1
         res.outcome((kind, tuple(executed[-2:])))
-        res.case(("seq", kind, tuple(actions)), nontrivial=any(a in ("connect", "ctx_ok", "ctx_raise") for a in actions))
+        res.case(("seq", kind, tuple(actions)), nontrivial=any(a in ("connect", "ctx_ok", "ctx_raise", "ctx_raise_os", "ctx_raise_base") for a in actions))
     if job["part"] == "seq" and job["prefix"] == ["connect", "drop"]:
         res.sample({"api_type": kind, "history": ["connect", "drop", "op_ok", "disconnect", "connect", "disconnect"][: job["depth"]]})
     return res
@@ -455,10 +462,20 @@ def real_tcp(res):
                     await api.disconnect()
                 finally:
                     server.close()
-                    await server.wait_closed()
+                    try:
+                        # wait_closed() waits for every connection: a client that leaked its socket would block it for ever
+                        await asyncio.wait_for(server.wait_closed(), 2.0)
+                    except asyncio.TimeoutError:
+                        problems.append("socket left open: the server still had a client connection after every disconnect")
                 return problems, seen
 
-            problems, seen = asyncio.run(scenario())
+            async def bounded():
+                try:
+                    return await asyncio.wait_for(scenario(), 30.0)
+                except asyncio.TimeoutError:
+                    return ["hang: the real-TCP scenario did not finish within 30 s"], {"eof": 0, "conns": 0}
+
+            problems, seen = asyncio.run(bounded())
             res.case(("tcp", kind))
             res.traces += 1
             res.counters["real_tcp_connections"] += seen["conns"]
